@@ -195,12 +195,40 @@ theorem C07_closed_any_use {D Q} (eng : D → Q → Except DuckExc D) (w : World
     | cons s rest =>
       obtain ⟨h1, h2, _⟩ := C07_closed eng w s hcl
       simp only [ConnUse.run, runExecutes, h1, h2]
-  | writePandas => simp [ConnUse.run, hcl, c250002]
+  | writePandas q => simp [ConnUse.run, hcl, c250002]
   | description c =>
     obtain ⟨hdb, hsc⟩ := hpre c rfl
     simp only [ConnUse.run, descriptionOutcome, execCall]
     rw [if_neg hdb, if_neg hsc]
     simp [hcl, mapExc, c250002]
+
+/-- **Failures inside the caller's open transaction**: `executemany` is a run of `cursor.execute`s and stops at the first
+    failure — if the first row's statement fails, the world (DuckDB state *including the caller's open transaction with its
+    uncommitted work*, context, variables) is exactly what it was and the error is that statement's; nothing is rolled back or
+    committed on the caller's behalf. -/
+theorem C07_executemany_first_failure {D Q} (eng : D → Q → Except DuckExc D) (w : World D) (s : Stmt Q) (rest : List (Stmt Q))
+    (hs : SingleCall s) (hfail : (execute eng w s).outcome ≠ .ok) :
+    runExecutes eng w (s :: rest) = (w, (execute eng w s).outcome) := by
+  have hw := C07_unchanged eng w s hs hfail
+  simp only [runExecutes]
+  cases ho : (execute eng w s).outcome with
+  | ok => exact absurd ho hfail
+  | programming c => simp [hw]
+  | database c => simp [hw]
+  | rawDuck e => simp [hw]
+  | rawPy e => simp [hw]
+
+/-- **`write_pandas` fails like `execute`**: a Binder / Catalog error of the direct insert is raised as ProgrammingError
+    2043/02000 / 2003/42S02, and a `write_pandas` that does not succeed leaves the world unchanged — for every engine. -/
+theorem C07_write_pandas {D Q} (eng : D → Q → Except DuckExc D) (w : World D) (q : Q) (hopen : w.closed = false) :
+    (eng w.duck q = .error .binder → (ConnUse.writePandas q).run eng w = (w, .programming c2043)) ∧
+    (eng w.duck q = .error .catalog → (ConnUse.writePandas q).run eng w = (w, .programming c2003)) ∧
+    (((ConnUse.writePandas q).run eng w).2 ≠ .ok → ((ConnUse.writePandas q).run eng w).1 = w) := by
+  refine ⟨fun h => by simp [ConnUse.run, hopen, h], fun h => by simp [ConnUse.run, hopen, h], ?_⟩
+  simp only [ConnUse.run, hopen, Bool.false_eq_true, if_false]
+  cases he : eng w.duck q with
+  | ok d => simp
+  | error e => cases e <;> simp
 
 /-- **CREATE/DROP SCHEMA: the database check follows the parse shape, not IF [NOT] EXISTS**: for both shapes sqlglot produces
     (normal; table-like for `DROP SCHEMA IF EXISTS`), "names no database" holds exactly when the name has one part — so
